@@ -101,6 +101,41 @@ pub struct Sim {
     tids: [libc::pthread_t; MAXT],
     /// (holder, its access count, scheduling position) at the last expiry of the CPU budget
     last_expiry: (i32, u32, usize),
+    /// this simulated thread runs with the trap flag set throughout (every instruction is looked at)
+    pub step_mode: [bool; MAXT],
+    /// add-form read-modify-write instructions without LOCK executed in generated code while stepping
+    pub unlocked_generated: [u32; MAXT],
+    pub stepped: [u32; MAXT],
+}
+
+// Address ranges that were made executable at run time (JIT and Cranelift code): recorded by the
+// interposed `mprotect` below, never removed.
+static EXEC_RANGES: [(std::sync::atomic::AtomicUsize, std::sync::atomic::AtomicUsize); 256] = {
+    #[allow(clippy::declare_interior_mutable_const)]
+    const Z: (std::sync::atomic::AtomicUsize, std::sync::atomic::AtomicUsize) = (std::sync::atomic::AtomicUsize::new(0), std::sync::atomic::AtomicUsize::new(0));
+    [Z; 256]
+};
+static EXEC_RANGES_N: std::sync::atomic::AtomicUsize = std::sync::atomic::AtomicUsize::new(0);
+
+/// The harness binary's own `mprotect` (an executable's symbols come first): passes everything on
+/// and remembers which ranges became executable.
+#[no_mangle]
+pub unsafe extern "C" fn mprotect(addr: *mut libc::c_void, len: libc::size_t, prot: libc::c_int) -> libc::c_int {
+    if prot & libc::PROT_EXEC != 0 {
+        let n = EXEC_RANGES_N.load(Ordering::Relaxed);
+        let (a, b) = (addr as usize, addr as usize + len);
+        if !(0..n.min(256)).any(|i| EXEC_RANGES[i].0.load(Ordering::Relaxed) == a && EXEC_RANGES[i].1.load(Ordering::Relaxed) == b) {
+            let i = EXEC_RANGES_N.fetch_add(1, Ordering::Relaxed) % 256;
+            EXEC_RANGES[i].0.store(a, Ordering::Relaxed);
+            EXEC_RANGES[i].1.store(b, Ordering::Relaxed);
+        }
+    }
+    libc::syscall(libc::SYS_mprotect, addr, len, prot) as libc::c_int
+}
+
+fn in_generated_code(rip: usize) -> bool {
+    let n = EXEC_RANGES_N.load(Ordering::Relaxed).min(256);
+    (0..n).any(|i| rip >= EXEC_RANGES[i].0.load(Ordering::Relaxed) && rip < EXEC_RANGES[i].1.load(Ordering::Relaxed))
 }
 
 /// An execution that touches the shared page more often than this has run away (the largest
@@ -237,6 +272,9 @@ impl Sim {
         self.overflow = false;
         self.accesses = [0; MAXT];
         self.last_expiry = (-2, 0, 0);
+        self.step_mode = [false; MAXT];
+        self.unlocked_generated = [0; MAXT];
+        self.stepped = [0; MAXT];
         self.pending = [None; MAXT];
         self.crash_sig = [0; MAXT];
         match replay {
@@ -518,13 +556,35 @@ extern "C" fn on_trap(sig: libc::c_int, _info: *mut libc::siginfo_t, ctx: *mut l
         let s = sim();
         let uc = ctx as *mut libc::ucontext_t;
         let me = s.baton.load(Ordering::Acquire);
+        if s.active && me >= 0 && s.pending[me as usize].is_none() && s.step_mode[me as usize] {
+            // free-running single-step mode: look at the instruction that is about to execute
+            let me = me as usize;
+            s.stepped[me] += 1;
+            let rip = (*uc).uc_mcontext.gregs[libc::REG_RIP as usize] as usize;
+            if in_generated_code(rip) {
+                // (the JIT's pages are writable + executable without PROT_READ: the kernel refuses
+                // process_vm_readv there, the CPU does not; a region made executable is whole pages,
+                // so reading up to the end of this page stays inside it)
+                let mut code = [0u8; 15];
+                let room = (PAGE - (rip & (PAGE - 1))).min(15);
+                std::ptr::copy_nonoverlapping(rip as *const u8, code.as_mut_ptr(), room);
+                let regs = [0u64; 16];
+                let d = decode(&code[..room], &regs);
+                if d.class == Class::Rmw && d.add_form && !d.lock && !d.implicit_lock {
+                    s.unlocked_generated[me] += 1;
+                }
+            }
+            return; // the trap flag stays set in the saved context
+        }
         if !s.active || me < 0 || s.pending[me as usize].is_none() {
             recover_or_die(sig, uc);
             return;
         }
         let me = me as usize;
         libc::mprotect(s.prog_view as *mut libc::c_void, PAGE, libc::PROT_NONE);
-        (*uc).uc_mcontext.gregs[libc::REG_EFL as usize] &= !0x100;
+        if !s.step_mode[me] {
+            (*uc).uc_mcontext.gregs[libc::REG_EFL as usize] &= !0x100;
+        }
         let p = s.pending[me].take().unwrap();
         let off = p.off as usize;
         let width = p.width as usize;
@@ -645,6 +705,9 @@ pub fn init() {
             accesses: [0; MAXT],
             tids: [0; MAXT],
             last_expiry: (-2, 0, 0),
+            step_mode: [false; MAXT],
+            unlocked_generated: [0; MAXT],
+            stepped: [0; MAXT],
         });
         SIM = Box::leak(s);
         for (sig, h) in [
